@@ -282,8 +282,14 @@ pub struct Sim<'w> {
     pub max_fail_run: u32,
     pub issue_reports: u64,
     pub crossed_active_expiry: bool,
+    pub hot_loop: bool,
+    pub budget_exhausted: bool,
+    pub last_fetch_ms: Option<i64>,
     pub evals: u64,
 }
+
+/// maintenance ticks simulated per history at most (fixed work)
+pub const TICK_BUDGET: u64 = 40_000;
 
 fn ms(t: SystemTime) -> i64 {
     (ns_of(t) / 1_000_000) as i64
@@ -312,6 +318,9 @@ impl<'w> Sim<'w> {
             max_fail_run: 0,
             issue_reports: 0,
             crossed_active_expiry: false,
+            hot_loop: false,
+            budget_exhausted: false,
+            last_fetch_ms: None,
             evals: 0,
         })
     }
@@ -368,6 +377,7 @@ impl<'w> Sim<'w> {
             return Ok(());
         }
         if fetched == 1 {
+            self.last_fetch_ms = Some(ms(t));
             // ---- model update
             self.model.fetches += 1;
             let mut n_adm = 0;
@@ -512,7 +522,6 @@ impl<'w> Sim<'w> {
     /// Advance the clock to `target`, running maintenance at every due instant on the way.
     pub fn advance_to(&mut self, target: SystemTime) -> CheckResult {
         let mut same_instant = 0;
-        let mut guard = 0;
         while !self.ended {
             let wait = self.drv.next_maintain(self.now);
             let due = self.now + wait;
@@ -522,9 +531,11 @@ impl<'w> Sim<'w> {
             if wait.is_zero() {
                 same_instant += 1;
                 if same_instant > 2 {
-                    // next_maintain stays due at the same instant (min_refetch_delay = 0):
-                    // the real task would spin; move time on by 1 ms
-                    let t = self.now + Duration::from_millis(1);
+                    // next_maintain stays due at the same instant (min_refetch_delay = 0 while a
+                    // path is inside the expiry threshold): the real task would spin as fast as
+                    // fetches complete; modelled as one more tick per second
+                    self.hot_loop = true;
+                    let t = self.now + Duration::from_secs(1);
                     if t > target {
                         break;
                     }
@@ -535,9 +546,11 @@ impl<'w> Sim<'w> {
             } else {
                 same_instant = 0;
             }
-            guard += 1;
-            if guard > 200_000 {
-                return Err(Fail::new("harness:too-many-ticks", "more than 200000 maintenance ticks inside one Advance"));
+            if self.maintains >= TICK_BUDGET {
+                // fixed work bound per history
+                self.ended = true;
+                self.budget_exhausted = true;
+                break;
             }
             let exp_before = self.active_expiry_ms();
             self.maintain_at(due)?;
@@ -605,9 +618,13 @@ impl<'w> Sim<'w> {
                 let seen: Seen = self.w.see(&p).map_err(|e| Fail::new("returned-path-undecodable", e))?;
                 // --- liveness first: with debug assertions the read APIs would panic on this
                 if seen.expiry_ms <= now_ms {
-                    let sig = match self.focus {
-                        Focus::C06 => "expired-path-handed-out",
-                        Focus::C05 => "provenance:expired-path-returned",
+                    // did a fetch tick (which drops expired paths) run at or after the expiry?
+                    let survived = self.last_fetch_ms.map(|t| t >= seen.expiry_ms).unwrap_or(false);
+                    let sig = match (self.focus, survived) {
+                        (Focus::C06, false) => "expired-path-handed-out:between-fetch-ticks",
+                        (Focus::C06, true) => "expired-path-handed-out:survived-a-fetch-tick",
+                        (Focus::C05, false) => "provenance:expired-path-returned:between-fetch-ticks",
+                        (Focus::C05, true) => "provenance:expired-path-returned:survived-a-fetch-tick",
                     };
                     return Err(Fail::new(sig, format!(
                         "send at {now_ms} ms gets the path of route {:?} whose hop fields expired at {} ms (next maintenance due in {:?}, failed_attempts {})",
@@ -728,7 +745,9 @@ pub fn run(w: &World, case: &Case, focus: Focus, obs: &mut Obs) -> Result<SimSum
         issue_reports: sim.issue_reports,
         crossed_active_expiry: sim.crossed_active_expiry,
         saw_rejected: sim.model.saw_rejected,
-        ended_idle: sim.ended,
+        ended_idle: sim.ended && !sim.budget_exhausted,
+        hot_loop: sim.hot_loop,
+        budget_exhausted: sim.budget_exhausted,
     })
 }
 
@@ -744,4 +763,6 @@ pub struct SimSummary {
     pub crossed_active_expiry: bool,
     pub saw_rejected: bool,
     pub ended_idle: bool,
+    pub hot_loop: bool,
+    pub budget_exhausted: bool,
 }
